@@ -449,3 +449,41 @@ func init() {
 	families["catchpt"] = famCatchPT
 	families["deep"] = famDeep
 }
+
+// an undecodable front-end document (zjson.Decode) wherever a record is expected: as the whole input, below a field, as a
+// slice element, each also behind a pointer, on fresh and on used destinations
+func famBadJSON(tw *traceWriter, r *rand.Rand, n int) {
+	inner := func() *Node {
+		return strct([]Kid{{Key: "x", Node: prim("int", true, None, None, []Test{{Kind: "gte", N: 2, Code: "gte"}}, nil)}}, []Test{{Kind: "const", N: 0, Code: "st1", User: true}}, nil)
+	}
+	bj := func() *Input { return leaf("badjson", 0, "nat") }
+	good := func() *Input { return mapIn(Ent{Key: "x", Val: val(3)}) }
+	i := 0
+	for _, viaPtr := range []bool{false, true} {
+		for _, pos := range []string{"root", "field", "elem"} {
+			for _, pre := range []int{0, 1, 2} {
+				rec := inner()
+				var node *Node = rec
+				if viaPtr {
+					node = ptr(rec, pre == 1)
+				}
+				var sch *Node
+				var in *Input
+				switch pos {
+				case "root":
+					sch, in = node, bj()
+				case "field":
+					sch = strct([]Kid{{Key: "a", Node: node}, {Key: "b", Node: prim("int", true, None, None, nil, nil)}}, nil, nil)
+					in = mapIn(Ent{Key: "a", Val: bj()}, Ent{Key: "b", Val: val(1)})
+				case "elem":
+					sch = slice(node, false, None, nil, nil)
+					in = list(good(), bj(), good())
+				}
+				tw.emitCase(&Case{ID: fmt.Sprintf("bj%d", i), Mode: "parse", Fe: "map", Pre: pre, Schema: sch, Input: in}, "", true)
+				i++
+			}
+		}
+	}
+}
+
+func init() { families["badjson"] = famBadJSON }
